@@ -115,6 +115,11 @@ class ArraySys(System):
         if colour == 'Z':
             x = np.zeros((0,) + tr, dtype=dt)
             return x, x
+        if colour == 'E':      # same numeric type, opposite byte order
+            ref = payload.values('H', 1, tr, dt)
+            return ref.astype(dt.newbyteorder('S')), ref
+        if colour == 'S0':     # 0-d ndarray: Darr may reject it or take it as one element
+            return np.array(9, dtype=dt), np.array([9], dtype=dt)
         if colour == 'S':
             return 7, np.array([7], dtype=dt)
         if colour == 'badtrail':
@@ -138,6 +143,9 @@ class ArraySys(System):
                 (('iterappend', 'ZA'), 1)]
         if not self.trail:
             grow.append((('append', 'S'), 1))
+            grow.append((('append', 'S0'), 1))
+        if self.dtype.itemsize > 1:
+            grow.append((('append', 'E'), 1))
         for op, k in grow:
             if k <= room:
                 ops.append(op)
@@ -180,6 +188,29 @@ class ArraySys(System):
 
     # ------------------------------------------------------------------ step
     def step(self, op):
+        r = self._step(op)
+        if r.diverged and 'format' in self.oracles:
+            # model and implementation have parted; the directory must still be self-describing
+            pre = 'after ' + '/'.join(str(x) for x in op)
+            r.violations += self._format_vs_api(self.path, 'diverged', pre)
+        return r
+
+    def _format_vs_api(self, path, op, pre):
+        try:
+            dec, d = decoder.decode_array(path)
+        except decoder.FormatError as e:
+            return [viol('format', op, pre, f'not decodable: {_cls(str(e))}',
+                         f'directory is not self-describing {pre}: {e}')]
+        try:
+            fresh = self.darr.Array(path)
+            if not payload.same_bits(dec, fresh[:]):
+                return [viol('format', op, pre, 'decoded array differs from what Darr reports',
+                             f'independent reader gets {dec.dtype.str} {dec.shape}, Darr {fresh.dtype.str} {fresh.shape}')]
+        except Exception as e:  # noqa: BLE001
+            return [viol('format', op, pre, f'decodable but Darr cannot open: {exc_class(e)}', repr(e))]
+        return []
+
+    def _step(self, op):
         darr = self.darr
         a = self.handles['a']
         m = self.model
@@ -217,7 +248,10 @@ class ArraySys(System):
                     it = iter([c[0] for c in cs])
                 refs = [c[1] for c in cs]
                 call = lambda: a.iterappend(it)
-            if m.mode == 'r' or any(r is None for r in refs):
+            if kind == 'append' and op[1] == 'S0' and m.mode != 'r':
+                expect = 'either'
+                newarr = np.concatenate([m.arr] + refs).astype(self.dtype)
+            elif m.mode == 'r' or any(r is None for r in refs):
                 expect = 'raises'
             else:
                 expect = 'returns'
@@ -267,9 +301,11 @@ class ArraySys(System):
         else:
             raise KeyError(op)
 
-        if expect == 'raises':
+        if expect in ('raises', 'either'):
             vis0, dec0 = self._visible(), self._decoded()
         what, val = outcome_of(call)
+        if expect == 'either':
+            expect = what
         label = what if what == 'returns' else f'raises:{exc_class(val)}'
         a = self.handles['a']
         opdesc = '/'.join(str(x) for x in op)
